@@ -237,6 +237,7 @@ def _mutants():
     from selftest.mutate import Mutant as M
     A = "_attn.py"
     return [
+        M("rank-compared-with-minus-one", "_attn.py", "self.dim == -1", "key_dim == -1", "no-vacuous-rank-test"),
         M("mask-not-negated", A, "e = e.masked_fill(~mask, -float('inf'))", "e = e.masked_fill(mask, -float('inf'))", "masked-scores-are--inf"),
         M("mask-fill-zero", A, "e = e.masked_fill(~mask, -float('inf'))", "e = e.masked_fill(~mask, 0.0)", "masked-scores-are--inf"),
         M("mask-after-softmax", A, "e = e.masked_fill(~mask, -float('inf'))\n        a = torch.nn.functional.softmax(e, self.dim)",
